@@ -31,7 +31,7 @@ func init() {
 	Register(&Scenario{
 		Name:  "long-sms",
 		Props: []string{"C06", "C07", "C14"},
-		Plan:  simple(20000, 400000),
+		Plan:  simple(20000, 1200000),
 		Run:   runLongSMS,
 		Real:  []string{"EncodeCMPPContentAndSplit", "EncodeSMPPContentAndSplit", "ParseLongSmsContent (handset reassembly)", "IEncode/IDecode of cmpp20.PduSubmit, cmpp30.Submit, smpp34.SubmitSm", "codec framers"},
 		Stub:  []string{"ESME session logic", "SMSC forwarding", "air link (reorder, duplicate, interleave)", "handset: reassembly store + reference text decoders (GSM 7-bit table and septet unpacker told the septet count, UTF-16BE, Windows-1252, ASCII; GB18030 via x/text)", "vendor stub sending 16-bit-reference parts"},
@@ -233,8 +233,12 @@ func pickTarget(c *core.Chooser, f family) int {
 	case 3:
 		return c.Range(single, 2000)
 	default:
-		if c.Prob(1, 6) {
-			return c.Range(255*per-3, 256*per+300) // around the 255-part limit
+		if c.Prob(1, 4) {
+			// around the 255-part limit: just below it (boundary shifting can push the real count to 256) or just above
+			if c.Bool() {
+				return 255*per - c.Intn(per)
+			}
+			return 255*per + 1 + c.Intn(300)
 		}
 		return c.Range(2000, 40000)
 	}
@@ -481,6 +485,9 @@ func splitAndSend(r *core.Run, ctx context.Context, m *lsMsg, air *[]airPart) bo
 	greedy := greedyParts(expFam, m.text)
 	site := m.proto + "/" + famName[expFam]
 	r.Event("msg %d %s req=%d text=%d octets units=%d greedy=%d -> parts=%d actual=%d err=%v", m.id, m.proto, m.req, len(m.text), len(units), greedy, len(parts), actual, err != nil)
+	if greedy >= 254 && greedy <= 257 {
+		r.Probe("part_count_at_255_limit")
+	}
 	if greedy > 255 {
 		r.Probe("more_than_255_parts")
 		// the library cuts blindly, so its own count may be lower than the greedy one; only a count > 255 must be refused
